@@ -1,3 +1,152 @@
 import Driver.Common
-/-! Driver for property C13 (stub: the model for this property is not built yet). -/
-def main : IO Unit := Driver.run (fun (s : Unit) _ => (s, "unimplemented")) ()
+import TxdbusModel.Bus.Names
+import TxdbusModel.Bus.SpecNames
+/-!
+Driver for property C13.  One history per line, one answer per line.
+
+  h <op> <op> ...      run the history on a fresh bus (code model `Txdbus.Bus.step`)
+      ops:  c            connect (the next unique name `:1.k`)
+            d<c>         connection c is lost
+            q<c>,<n>,<f> RequestName(name n, flags f) by c
+            r<c>,<n>     ReleaseName(n) by c
+            o<c>,<n>     GetNameOwner(n) by c
+            l<c>,<n>     ListQueuedOwners(n) by c
+    answer: one field per step, joined by " | ":   <events>#<Bus.busNames>#<clients' busNames>
+      events (in the order sent), joined by ",", "-" when none:
+            A<to>:<n> NameAcquired   L<to>:<n> NameLost   B<n>:<old>:<new> NameOwnerChanged broadcast
+            r<to>:<code>   o<to>:<owner>   l<to>:<c.c.c>   e<to>:NameHasNoOwner
+      Bus.busNames sorted by name:  <n>=<c.c.c>;...      clients sorted by id: <c>=<n>:<0|1>,...;...
+      a step on which Python raises prints ERR:<key|index|attr>; later steps print "!".
+  t <op> <op> ...      as `h`, but only the field of the LAST step is printed
+  s <op> <op> ...      the same history on the specification (`Txdbus.Bus.Spec.run`, deterministic
+                       instance: a replaced owner leaves the queue): per step <events>#<queues>
+                       (no NameOwnerChanged in the events)
+  f <a> <r> <d> <e> <code>   client side: flag word of requestBusName(a, r, d), on_result(code) with
+                       errbackUnlessAcquired = e, reason class of FailedToAcquireName(code)
+                       -> <flags> <ok:code|raise:code> <class>
+-/
+open Txdbus.Bus
+
+namespace Driver.C13
+
+def nat? (s : String) : Option Nat := s.toNat?
+
+def parseOp (w : String) : Option Op :=
+  match w.toList with
+  | ['c'] => some .connect
+  | 'd' :: r => (nat? (String.ofList r)).map .disconnect
+  | k :: r =>
+    match (String.ofList r).splitOn ",", k with
+    | [a, b, c], 'q' => do pure (.request (← nat? a) (← nat? b) (← nat? c))
+    | [a, b], 'r' => do pure (.release (← nat? a) (← nat? b))
+    | [a, b], 'o' => do pure (.getOwner (← nat? a) (← nat? b))
+    | [a, b], 'l' => do pure (.listQueued (← nat? a) (← nat? b))
+    | _, _ => none
+  | [] => none
+
+def showConns (q : List Conn) : String := String.intercalate "." (q.map toString)
+
+def showOpt : Option Conn → String
+  | none => "-"
+  | some c => toString c
+
+def showEvent : Event → String
+  | .nameAcquired t n => s!"A{t}:{n}"
+  | .nameLost t n => s!"L{t}:{n}"
+  | .ownerChanged n o w => s!"B{n}:{showOpt o}:{showOpt w}"
+  | .reply t c => s!"r{t}:{c}"
+  | .replyOwner t o => s!"o{t}:{o}"
+  | .replyQueue t q => s!"l{t}:{showConns q}"
+  | .replyNoOwner t => s!"e{t}:NameHasNoOwner"
+
+def showEvents (evs : List Event) : String :=
+  if evs.isEmpty then "-" else String.intercalate "," (evs.map showEvent)
+
+def insertBy {α : Type} (key : α → Nat) (x : α) : List α → List α
+  | [] => [x]
+  | y :: t => if key x ≤ key y then x :: y :: t else y :: insertBy key x t
+
+def sortBy {α : Type} (key : α → Nat) (l : List α) : List α := l.foldr (insertBy key) []
+
+def showState (s : State) : String :=
+  let names := (sortBy Prod.fst s.busNames).map fun (n, q) => s!"{n}={showConns q}"
+  let cls := (sortBy Prod.fst s.clients).map fun (c, t) =>
+    s!"{c}=" ++ String.intercalate "," (t.map fun (n, b) => s!"{n}:{if b then 1 else 0}")
+  String.intercalate ";" names ++ "#" ++ String.intercalate ";" cls
+
+def showErr : Err → String
+  | .key => "ERR:key"
+  | .index => "ERR:index"
+  | .attr => "ERR:attr"
+
+def runHistory (s : State) : List Op → List String
+  | [] => []
+  | op :: ops =>
+    match step s op with
+    | .error e => showErr e :: ops.map (fun _ => "!")
+    | .ok (s1, evs) => (showEvents evs ++ "#" ++ showState s1) :: runHistory s1 ops
+
+/-- The names a history mentions (the spec state is a function; only these are printed). -/
+def opName : Op → List Name
+  | .request _ n _ => [n]
+  | .release _ n => [n]
+  | .getOwner _ n => [n]
+  | .listQueued _ n => [n]
+  | _ => []
+
+def showSpecState (names : List Name) (σ : Spec.State) : String :=
+  String.intercalate ";" ((names.filter fun n => !(σ.queue n).isEmpty).map fun n =>
+    s!"{n}=" ++ String.intercalate "." ((σ.queue n).map fun e => s!"{e.conn}{if e.allow then "a" else ""}"))
+
+def showSpecEvent : Spec.Ev → String
+  | .nameAcquired t n => s!"A{t}:{n}"
+  | .nameLost t n => s!"L{t}:{n}"
+  | .reply t c => s!"r{t}:{c}"
+  | .replyOwner t o => s!"o{t}:{o}"
+  | .replyQueue t q => s!"l{t}:{showConns q}"
+  | .replyNoOwner t => s!"e{t}:NameHasNoOwner"
+
+def runSpec (names : List Name) (fresh : Conn) (σ : Spec.State) : List Op → List String
+  | [] => []
+  | op :: ops =>
+    match Spec.exec names fresh σ op with
+    | none => "REFUSED" :: ops.map (fun _ => "!")
+    | some (σ1, evs) =>
+      ((if evs.isEmpty then "-" else String.intercalate "," (evs.map showSpecEvent))
+        ++ "#" ++ showSpecState names σ1)
+        :: runSpec names (if op = Op.connect then fresh + 1 else fresh) σ1 ops
+
+def bool? (w : String) : Option Bool :=
+  if w == "1" then some true else if w == "0" then some false else none
+
+def step (_ : Unit) (line : String) : Unit × String :=
+  let out : String :=
+    match Driver.words line with
+    | "h" :: ws =>
+      match ws.mapM parseOp with
+      | none => "bad-input"
+      | some ops => String.intercalate " | " (runHistory State.init ops)
+    | "t" :: ws =>
+      match ws.mapM parseOp with
+      | none => "bad-input"
+      | some ops => ((runHistory State.init ops).getLast?).getD "empty"
+    | "s" :: ws =>
+      match ws.mapM parseOp with
+      | none => "bad-input"
+      | some ops =>
+        let names := sortBy id ((ops.flatMap opName).eraseDups)
+        String.intercalate " | " (runSpec names 1 Spec.State.init ops)
+    | ["f", a, r, d, e, code] =>
+      match bool? a, bool? r, bool? d, bool? e, nat? code with
+      | some a, some r, some d, some e, some code =>
+        let res := match clientOnResult e code with
+          | .ok v => s!"ok:{v}"
+          | .error v => s!"raise:{v}"
+        s!"{clientFlags a r d} {res} {failedReason code}"
+      | _, _, _, _, _ => "bad-input"
+    | _ => "bad-input"
+  ((), out)
+
+end Driver.C13
+
+def main : IO Unit := Driver.run Driver.C13.step ()
